@@ -83,13 +83,7 @@ Proof.
   rewrite Imin, Imax.
   pose proof (rescale_bounds t (lo + s_offset s) hi Ht ltac:(lia) Ifloor Hhi) as Hr.
   set (r := rescale_c t (lo + s_offset s) hi) in *.
-  set (cnt' := match s_last s with
-               | Some l => if supports_pwm (s_fan s) i && ci_read_ok i
-                           then match written (c_pm c) l with
-                                | FcVal expected => if s_pwm s =? expected then s_cnt s else s_cnt s + 1
-                                | _ => s_cnt s end
-                           else s_cnt s
-               | None => s_cnt s end).
+  set (cnt' := third_party_cnt c s i).
   destruct (has_rpm (s_fan s) && never_stop (s_fan s)
             && match s_last s with Some l => l =? r | None => false end
             && stall_test (GetRpmAvg (s_fan s))) eqn:Stall.
@@ -221,3 +215,125 @@ Qed.
 
 Lemma GetMinPwm_no_neverstop f : never_stop f = false -> GetMinPwm f = 0.
 Proof. unfold GetMinPwm, MinPwmValue. intros ->. destruct (fk f); reflexivity. Qed.
+
+(* ---- C02: the floor lo + (number of raises) and the strict raise ---- *)
+Definition floor_inv (lo : Z) (s : st) : Prop := forall r, s_last s = Some r -> lo + s_offset s <= r.
+
+Definition raise_rel (s s' : st) : Prop :=
+  s_offset s' = s_offset s
+  \/ (s_offset s' = s_offset s + 1 /\ never_stop (s_fan s) = true
+      /\ exists l, s_last s = Some l /\ s_last s' = Some (l + 1)).
+
+Lemma step_floor c s e lo hi :
+  0 <= lo -> hi <= 255 -> pm_ok (c_pm c) -> inv lo hi s -> floor_inv lo s ->
+  floor_inv lo (fst (step c s e)) /\ raise_rel s (fst (step c s e)).
+Proof.
+  intros Hlo Hhi Hpm I F. destruct e as [rpm|i|m p]; cbn [step].
+  - cbn. split; [exact F|left; reflexivity].
+  - destruct (negb (s_stopped s =? 0)); [cbn; split; [exact F|left; reflexivity]|].
+    pose proof (calc_target_spec c s i lo hi Hlo Hhi I) as T.
+    destruct (calc_target c s i) as [s1 r|s1 code].
+    + destruct T as (I1 & L1 & Hr & _ & _ & _ & Hoff).
+      assert (Hr' : lo <= r <= hi) by (destruct I1; lia).
+      pose proof (apply_target_spec c s1 i r lo hi Hpm I1 Hr') as A.
+      destruct (apply_target c s1 i r) as [[s2 ws] err].
+      destruct A as (I2 & -> & L2 & O2 & _).
+      cbn. split.
+      * intros r' E. rewrite L2 in E. inversion E; subst r'. lia.
+      * destruct Hoff as [E|(E & Hn & l & El & Er)]; [left; lia|].
+        right. repeat split; auto; try lia. exists l. split; auto. rewrite L2, Er. reflexivity.
+    + destruct T as (I1 & L1 & O1 & _). unfold set_stopped. cbn. split.
+      * intros r E. cbn in E. rewrite L1 in E. rewrite O1. apply F; exact E.
+      * left. exact O1.
+  - cbn. split; [exact F|left; reflexivity].
+Qed.
+
+(* the k-th state of a history *)
+Fixpoint states (c : cfg) (s : st) (h : list hev) : list st :=
+  match h with [] => [] | e :: r => let s1 := fst (step c s e) in s1 :: states c s1 r end.
+
+Lemma run_states c : forall h s lo hi,
+  0 <= lo -> hi <= 255 -> pm_ok (c_pm c) -> inv lo hi s -> floor_inv lo s ->
+  Forall (fun s' => inv lo hi s' /\ floor_inv lo s') (states c s h).
+Proof.
+  induction h as [|e h IH]; intros s lo hi Hlo Hhi Hpm I F; cbn [states]; [constructor|].
+  pose proof (step_spec c s e lo hi Hlo Hhi Hpm I) as S.
+  pose proof (step_floor c s e lo hi Hlo Hhi Hpm I F) as [F1 _].
+  destruct (step c s e) as [s1 o]. cbn in *. destruct S as (I1 & _).
+  constructor; [split; auto|]. apply IH; auto.
+Qed.
+
+(* consecutive states are related by [raise_rel]: the offset never decreases, grows by one at a time,
+   and the request issued at a raise is the stalled request plus one *)
+Fixpoint chain {A} (R : A -> A -> Prop) (x : A) (l : list A) : Prop :=
+  match l with [] => True | y :: r => R x y /\ chain R y r end.
+
+Lemma run_chain c : forall h s lo hi,
+  0 <= lo -> hi <= 255 -> pm_ok (c_pm c) -> inv lo hi s -> floor_inv lo s ->
+  chain raise_rel s (states c s h).
+Proof.
+  induction h as [|e h IH]; intros s lo hi Hlo Hhi Hpm I F; cbn [states chain]; [exact Logic.I|].
+  pose proof (step_spec c s e lo hi Hlo Hhi Hpm I) as S.
+  pose proof (step_floor c s e lo hi Hlo Hhi Hpm I F) as [F1 R1].
+  destruct (step c s e) as [s1 o]. cbn in *. destruct S as (I1 & _).
+  split; [exact R1|]. apply (IH s1 lo hi); auto.
+Qed.
+
+Lemma init_floor f a pwm mode lo : floor_inv lo (init_st f a pwm mode).
+Proof. intros r E. discriminate. Qed.
+
+(* the observation after an event is the projection of the state after it *)
+Lemma step_obs_state c s e :
+  let '(s', o) := step c s e in
+  o_req o = s_last s' /\ o_offset o = s_offset s' /\ o_min o = GetMinPwm (s_fan s') /\ o_pwm o = s_pwm s'
+  /\ o_mode o = s_mode s' /\ o_cnt o = s_cnt s'.
+Proof.
+  destruct e as [rpm|i|m p]; cbn [step].
+  - cbn. auto 10.
+  - destruct (negb (s_stopped s =? 0)); [cbn; auto 10|].
+    destruct (calc_target c s i) as [s1 r|s1 code]; [|cbn; auto 10].
+    destruct (apply_target c s1 i r) as [[s2 ws] err]. cbn. auto 10.
+  - cbn. auto 10.
+Qed.
+
+Inductive Forall2' {A B} (R : A -> B -> Prop) : list A -> list B -> Prop :=
+| F2nil : Forall2' R [] []
+| F2cons x y l l' : R x y -> Forall2' R l l' -> Forall2' R (x :: l) (y :: l').
+
+Definition obs_of_state (s' : st) (o : obs) : Prop :=
+  o_req o = s_last s' /\ o_offset o = s_offset s' /\ o_min o = GetMinPwm (s_fan s') /\ o_pwm o = s_pwm s'
+  /\ o_mode o = s_mode s' /\ o_cnt o = s_cnt s'.
+
+Lemma run_obs_states c : forall h s, Forall2' obs_of_state (states c s h) (snd (run c s h)).
+Proof.
+  induction h as [|e h IH]; intros s; cbn [states run]; [constructor|].
+  pose proof (step_obs_state c s e) as S. specialize (IH (fst (step c s e))).
+  destruct (step c s e) as [s1 o]. cbn [fst] in *.
+  destruct (run c s1 h) as [s2 os]. cbn [snd] in *. constructor; auto.
+Qed.
+
+Lemma run_floor c f a pwm mode h :
+  0 <= GetMinPwm f -> GetMinPwm f <= GetMaxPwm f -> GetMaxPwm f <= 255 -> pm_ok (c_pm c) ->
+  Forall (fun s' => GetMinPwm (s_fan s') = GetMinPwm f
+                    /\ 0 <= s_offset s'
+                    /\ forall r, s_last s' = Some r -> GetMinPwm f + s_offset s' <= r <= GetMaxPwm f)
+         (states c (init_st f a pwm mode) h).
+Proof.
+  intros H0 H1 H2 Hpm.
+  pose proof (run_states c h (init_st f a pwm mode) (GetMinPwm f) (GetMaxPwm f) H0 H2 Hpm
+                         (init_inv f a pwm mode H0 H1) (init_floor f a pwm mode (GetMinPwm f))) as R.
+  eapply Forall_impl; [|exact R]. intros s' [[I1 I2 I3 I4 I5] F].
+  split; [exact I1|]. split; [exact I3|]. intros r E. split; [apply F; exact E|apply I5; exact E].
+Qed.
+
+Lemma run_raises c f a pwm mode h :
+  0 <= GetMinPwm f -> GetMinPwm f <= GetMaxPwm f -> GetMaxPwm f <= 255 -> pm_ok (c_pm c) ->
+  chain raise_rel (init_st f a pwm mode) (states c (init_st f a pwm mode) h).
+Proof.
+  intros H0 H1 H2 Hpm.
+  exact (run_chain c h (init_st f a pwm mode) (GetMinPwm f) (GetMaxPwm f) H0 H2 Hpm
+                   (init_inv f a pwm mode H0 H1) (init_floor f a pwm mode (GetMinPwm f))).
+Qed.
+
+Lemma GetMinPwm_not_hwmon f : fk f <> HwMon -> GetMinPwm f = 0.
+Proof. unfold GetMinPwm, MinPwmValue. destruct (fk f); congruence. Qed.
